@@ -110,7 +110,12 @@ func runC15(c *core.Ctx) {
 	w, err := world.NewWorld(c.Ch, world.WorldConfig{ChainNames: []string{"chain-aaa", "chain-bbb"}})
 	c.Check(err)
 	c.W = w
-	c.Check(w.ConnectAll(world.DefaultClientParams()))
+	params := world.DefaultClientParams()
+	if ch.Bool(1, 2) { // short trusting period: clients expire during the run ("any state of the registry")
+		params.TrustingPeriod, params.Unbonding = 15*time.Minute, 30*time.Minute
+		w.Stats.Inc("short-trusting-period")
+	}
+	c.Check(w.ConnectAll(params))
 	a, b := w.Nodes[0], w.Nodes[1]
 	v := &c15Env{c: c, w: w, a: a, b: b}
 	v.clients, v.relayers, v.rules = v.observeRegistry()
@@ -314,6 +319,13 @@ func runC15(c *core.Ctx) {
 		}
 		v.clients, v.relayers, v.rules = v.observeRegistry()
 		w.Tick(time.Duration(ch.Int(20)) * time.Second)
+		if ch.Bool(1, 8) { // nobody relays for a while: clients with a short trusting period expire
+			w.Tick(20 * time.Minute)
+			w.Stats.Inc("clock-jump-20m")
+			if a.ClientStatus("chain-bbb") == exported.Expired {
+				w.Stats.Inc("probe-client-expired")
+			}
+		}
 	}
 	w.Stats.Add("privileged-requests", v.requests)
 	w.Stats.Add("refused", v.refused)
